@@ -203,9 +203,9 @@ def nowrite(run, p):
 # output side: the format is chosen by save_df, which raises 'Unknown output format' for every spelling it does
 # not list - for the command line and the library alike - so nothing is ever written in the wrong format
 EXT_OUTPUT_SIDE = {
-    "tdda/constraints/pd/constraints.py::save_df::fmt == 'parquet'": 'save_df raises for unlisted spellings',
-    "tdda/constraints/pd/constraints.py::save_df::fmt in ('csv', 'psv', 'tsv', 'txt')": 'save_df raises for unlisted spellings',
-    "tdda/constraints/pd/constraints.py::PandasConstraintDetector.write_detected_records::file_format(detect_outpath) == 'parquet'":
+    # keyed by function: every extension test inside it is on the output side
+    "tdda/constraints/pd/constraints.py::save_df": 'save_df raises for unlisted spellings (evaluated below)',
+    "tdda/constraints/pd/constraints.py::PandasConstraintDetector.write_detected_records":
         'only chooses typed output for a file save_df will then write as parquet; other spellings make save_df raise',
 }
 
@@ -219,19 +219,43 @@ def extcase(run, p):
                      'lower-cased extension, so the front end never refuses or misreads a file the loader accepts',
                      triage_tbl=EXT_OUTPUT_SIDE)
     run.floor('C17-EXTCASE', n, 6)
-    # the triage above rests on save_df refusing every spelling it does not list
+    # the triage above rests on save_df refusing every spelling it does not list: evaluated on sample paths
+    import io
+    from ..pyeval import Interp, Model, Unsupported, Raised
     sd = p.fn('save_df')
-    ok = False
-    for x in p.own_nodes(sd):
-        if isinstance(x, ast.If) and 'fmt' in names_in(x.test):
-            y = x
-            while len(y.orelse) == 1 and isinstance(y.orelse[0], ast.If):
-                y = y.orelse[0]
-            if y.orelse and any(isinstance(s, ast.Raise) for s in y.orelse):
-                ok = True
+
+    class Frame(Model):
+        def __init__(self):
+            self.written = []
+
+        def to_parquet(self, *a, **k):
+            self.written.append('parquet')
+    bad = []
+    for path, want in (('out.parquet', 'parquet'), ('out.csv', 'csv'), ('out.txt', 'csv'), ('out.PARQUET', 'raise'), ('out.Csv', 'raise'),
+                       ('out.feather', 'raise'), ('out.parquet.bak', 'raise')):
+        df = Frame()
+        I = Interp(p)
+        I.extra_names['StringIO'] = io.StringIO
+
+        def hook(m, args, kwargs, selfobj, df=df):
+            if m.name == 'default_csv_writer':
+                df.written.append('csv')
+                return True, ''
+            return False, None
+        I.on_call = hook
+        try:
+            I.call(sd, [df, path])
+            got = ','.join(df.written) or 'nothing'
+        except Raised:
+            got = 'raise'
+        except Unsupported as e:
+            raise AnalysisError('save_df is not evaluable: %s' % e)
+        if got != want:
+            bad.append((path, got, want))
+    ok = not bad
     run.ob('C17-EXTCASE', '%s::save_df::unlisted-format-raises' % sd.rel, ok,
-           'save_df ends its format dispatch with an else arm that raises' if ok else
-           'save_df no longer raises for an unlisted format: a differently-cased extension would be written in a default format',
+           'save_df writes the listed formats and raises for every other spelling of the extension (7 sample paths)' if ok else
+           'save_df(%r) gives %s, expected %s: a differently-cased or unlisted extension would be written in a default format' % bad[0],
            fn=sd)
 
 
